@@ -130,7 +130,33 @@ def _media():
     return build
 
 
+RULE_DTLS = ("each evaluation is one simulated pair of real RTCDtlsTransports: per side a generated fingerprint list (subsets and "
+             "permutations of sha-256/384/512, upper/lower/mixed case, one hex digit altered, unsupported algorithm names, mixtures), an "
+             "SRTP profile preference list, explicit or ICE-derived roles; after the handshake RTP, RTCP and data messages in both "
+             "directions under delay jitter and bit-burst corruption; non-trivial = the run got as far as the verdict with a non-empty "
+             "traffic program; distinct = distinct event-log digests")
+
+
+def _dtls():
+    def build():
+        from ..engines import media_sim
+        comps = dict(MEDIA_COMPONENTS)
+        comps["RTCRtpSender / RTCRtpReceiver / data receiver"] = "fakes registered on the real transports (record what is handed over)"
+        return {
+            "fn": media_sim.run_dtls, "spec": {}, "level": "exploration", "quick_s": 40, "thorough_s": 480,
+            "rule": RULE_DTLS, "components": comps,
+            "state_measure": "none beyond the (expected verdict A, expected verdict B) classes counted as probes",
+            "assumptions": ["DTLS handshake datagrams are delayed but never lost or altered (OpenSSL's retransmission timer reads the real clock)",
+                            "expected verdicts are computed with hashlib over the peer certificate's DER and from the two profile lists",
+                            "sampling, not enumeration: a clean batch is evidence, not proof"],
+            "probes_expected": ["verdict_connected_connected", "verdict_connected_failed", "verdict_failed_connected",
+                                "verdict_failed_failed", "altered_in_transit", "delivered_rtp", "delivered_data", "send_refused"],
+        }
+    return build
+
+
 REGISTRY = {
+    "C04": _dtls(),
     "C11": _media(),
     "C17": _diff(),
     "C10": _hist("jb", RULE_JB, "(ring occupancy quartile, frame released, key-frame request, order premise intact) after every add()",
